@@ -216,6 +216,8 @@ def run(rep):
         rep.check('R08.a', fkey(f, 'render_error fallback'), ok and fb_ok,
                   'a failing error renderer falls back to default_render_error with the same parameters (same error)' if ok and fb_ok else
                   'a failing render_error is not replaced by default_render_error(**same params)', app, ee)
+        check_fallback_self_contained(rep, 'R08.a')
+        check_conversion_lookups(rep, 'R08.a')
         star = [k.value for k in eec.keywords if k.arg is None]
         ok = len(star) == 1
         if ok:
@@ -332,6 +334,7 @@ def run(rep):
             raise AnalysisError('format sinks in the to_* serialisers not found')
         check_escape_total(rep, 'R08.e')
         check_json_encoder_total(rep, 'R08.e')
+        check_optional_fields_guarded(rep, 'R08.e')
 
 
     def converter_rules():
@@ -362,6 +365,156 @@ def run(rep):
     # each group is analysed on its own: a construct one group cannot follow does not hide the verdicts of the others
     for group in (dispatch_rules, reraise_rules, store_rules, serialiser_rules, converter_rules, decoding_rules, deferred_error_rules):
         run_group(rep, group)
+
+
+# ---------------------------------------------------------------------------------------------- R08.a: the last-resort renderer
+RENDERERS = ('render_error', 'execute_error', 'render')
+
+
+def check_fallback_self_contained(rep, rule):
+    """default_render_error is what dispatch falls back to when the error renderer itself failed, and it runs outside any
+    handler.  It is the thing that must not fail: outside a handler of its own it works only on the two objects it is
+    about -- the request and the error -- and on the module's own constants.  A call that is reached through anything else
+    it is handed (the application, its error handler, the route, the remaining keyword arguments) or that runs an error
+    renderer again is application-supplied code -- the very code that has just failed -- and needs a handler around it."""
+    repo = rep.repo
+    app = repo.mod(APP)
+    fi = app.func('default_render_error')
+    ps = fi.params()
+    if len(ps) < 2:
+        raise AnalysisError('default_render_error(request, _error, ..): parameters not found')
+    safe = set(ps[:2])
+    a = fi.node.args
+    tainted = set(x.arg for x in a.posonlyargs + a.args + a.kwonlyargs if x.arg not in safe) | set(x.arg for x in (a.vararg, a.kwarg) if x)
+    grew = True
+    while grew:
+        grew = False
+        for st in stmts_of(fi.node):
+            tg = []
+            if isinstance(st, ast.Assign):
+                tg = [n.id for t in st.targets for n in ast.walk(t) if isinstance(n, ast.Name)]
+                src = st.value
+            elif isinstance(st, (ast.For, ast.With)):
+                continue
+            else:
+                continue
+            if tg and any(isinstance(n, ast.Name) and n.id in tainted for n in ast.walk(src)):
+                for t in tg:
+                    if t not in tainted and t not in safe:
+                        tainted.add(t)
+                        grew = True
+    from ..effects import chain_of
+    bad = []
+    n_calls = 0
+    for c in walk_body(fi.node):
+        if not isinstance(c, ast.Call):
+            continue
+        n_calls += 1
+        if protected_by(fi, c, 'Exception') is not None:
+            continue
+        ch = chain_of(c.func) or []
+        if a.kwarg is not None and ch[:1] == [a.kwarg.arg] and len(ch) == 2 and ch[1] in ('get', 'pop', 'items', 'keys', 'values', 'setdefault', 'copy'):
+            continue          # the ``**kwargs`` mapping is a dict of this call's own
+        if ch and ch[0] in tainted:
+            bad.append((c, 'reached through %s, which the caller supplies' % ch[0]))
+        elif call_tail(c) in RENDERERS and not (isinstance(c.func, ast.Name)):
+            bad.append((c, 'an error renderer is run again'))
+        elif not ch and any(isinstance(n, ast.Name) and n.id in tainted for n in ast.walk(c.func)):
+            bad.append((c, 'the callee is computed from what the caller supplies'))
+    rep.check(rule, fkey(fi, 'self-contained'), not bad,
+              'outside a handler the last-resort renderer only works on the request, the error and module constants (%d calls)' % n_calls if not bad else
+              'default_render_error -- what dispatch falls back to after the error renderer failed, outside any handler -- calls %s (%s): '
+              'application-supplied rendering code runs on the path that must not fail, and its exception reaches the WSGI server'
+              % (short(bad[0][0], 70), bad[0][1]), app, bad[0][0] if bad else fi.node)
+
+
+# ---------------------------------------------------------------------------------------------- the conversion of an uncaught exception is total
+def conversion_closure(repo):
+    """The functions that run inside dispatch's generic handler to turn an uncaught exception into a response, as far as no
+    handler (catching AttributeError / KeyError) of their own covers the call: every ``uncaught_to_response`` of the
+    ErrorHandler family, the constructors of the classes the family names in a class attribute and instantiates there
+    (``eh.server_error_type(..)``, ``eh.exc_info_type.from_current()`` when in the tree) with the base-class constructors
+    they delegate to, and the functions of the tree those call."""
+    from ..effects import callee_of
+    err = repo.mod(ERR)
+    ehc = err.cls('ErrorHandler')
+    fam = [ehc] + repo.subclasses(ehc, [err])
+    type_attrs = {}
+    for c in fam:
+        for name, v in c.class_attrs.items():
+            if isinstance(v, ast.Name):
+                k, m, obj = repo.resolve(c.mod, v.id)
+                if k == 'class' and m is not None and not m.external:
+                    type_attrs.setdefault(name, []).append(obj)
+    todo = [(c.methods['uncaught_to_response'], 0) for c in fam if 'uncaught_to_response' in c.methods]
+    seen = []
+    while todo:
+        fi, d = todo.pop()
+        if any(fi is x for x in seen) or d > 4:
+            continue
+        seen.append(fi)
+        for c in walk_body(fi.node):
+            if not isinstance(c, ast.Call) or protected_by(fi, c, 'AttributeError') is not None:
+                continue
+            f = resolve_local(fi.node, c.func)
+            nxt = []
+            if isinstance(f, ast.Attribute) and f.attr in type_attrs:
+                for cls in type_attrs[f.attr]:
+                    init = repo.find_method(cls, '__init__')
+                    if init is not None and not init.mod.external:
+                        nxt.append(init)
+            elif isinstance(f, ast.Attribute) and f.attr == '__init__' and 'super' in norm(f.value) and fi.cls is not None:
+                mro = [k for k in repo.mro(fi.cls) if hasattr(k, 'methods')]
+                for k in mro[1:]:
+                    if '__init__' in k.methods and not k.mod.external:
+                        nxt.append(k.methods['__init__'])
+                        break
+            else:
+                g = callee_of(repo, fi, c)
+                if g is not None:
+                    nxt.append(g)
+            todo.extend((g, d + 1) for g in nxt)
+    return seen
+
+
+def check_conversion_lookups(rep, rule):
+    """The exception an endpoint dies with is arbitrary (any class of any module).  What runs inside dispatch's generic
+    handler to build the server-error response must not depend on the exception's type being one it knows: looking an
+    attribute of a *module* up under a computed name (``getattr(builtins, type_name)``, ``vars(mod)[name]``,
+    ``globals()[name]``) succeeds only for the names that module happens to define, so outside a handler -- and without a
+    default -- it raises for every other exception type, inside the handler that was the last line of defence."""
+    repo = rep.repo
+    fns = conversion_closure(repo)
+    if len(fns) < 3:
+        raise AnalysisError('conversion of uncaught exceptions: only %d functions found (floor 3)' % len(fns))
+    n = 0
+    for fi in fns:
+        def is_module(e):
+            return isinstance(e, ast.Name) and repo.resolve(fi.mod, e.id)[0] == 'module' and \
+                not any(isinstance(x, ast.Name) and x.id == e.id and isinstance(x.ctx, ast.Store) for x in walk_body(fi.node))
+        for c in walk_body(fi.node):
+            what, exc = None, None
+            if isinstance(c, ast.Call) and isinstance(c.func, ast.Name) and c.func.id == 'getattr' and len(c.args) == 2 and not c.keywords and \
+                    not isinstance(c.args[1], ast.Constant) and is_module(c.args[0]):
+                what, exc = c, 'AttributeError'
+            elif isinstance(c, ast.Subscript) and isinstance(c.ctx, ast.Load) and not isinstance(c.slice, ast.Constant):
+                v = c.value
+                if (isinstance(v, ast.Attribute) and v.attr == '__dict__' and is_module(v.value)) or \
+                        (isinstance(v, ast.Call) and isinstance(v.func, ast.Name) and
+                         ((v.func.id == 'vars' and len(v.args) == 1 and is_module(v.args[0])) or (v.func.id == 'globals' and not v.args))):
+                    what, exc = c, 'KeyError'
+            if what is None:
+                continue
+            n += 1
+            h = protected_by(fi, what, exc)
+            rep.check(rule, fkey(fi, norm(what)[:70]), h is not None,
+                      'the lookup by computed name is an attempt (under "except %s")' % (norm(h.type) if h is not None and h.type is not None else '<bare>')
+                      if h is not None else
+                      '%s looks a module attribute up under a computed name (%s) with no default and no handler, while converting an uncaught '
+                      'exception inside dispatch\'s generic handler: for an exception type the module does not define this raises %s there, and '
+                      'the request gets no response at all' % (fi.qualname, short(what, 60), exc), fi.mod, what)
+    rep.ok(rule, '%s::conversion of uncaught exceptions' % ERR, '%d function(s) run inside dispatch\'s generic handler; %d lookup(s) of module '
+           'attributes by computed name inspected' % (len(fns), n))
 
 
 # ---------------------------------------------------------------------------------------------- R08.c: what a re-raise lets out
@@ -492,6 +645,109 @@ def exception_escapes(repo, m):
         whys = [w for w in (_raise_lets_out(callee, r, roles) for r in rz) if w is not None]
         out.append((st, '; '.join(whys) if whys else None))
     return out
+
+
+# ---------------------------------------------------------------------------------------------- R08.e: optional fields of an error
+def _maybe_none(init, v):
+    """the value a constructor stores can be None: ``kw.pop(name, None)`` / ``kw.get(name)`` / ``None`` / a parameter
+    whose default is None"""
+    if isinstance(v, ast.Constant):
+        return v.value is None
+    if isinstance(v, ast.Call) and isinstance(v.func, ast.Attribute) and v.func.attr in ('pop', 'get') and v.args and not v.keywords:
+        return len(v.args) == 1 and v.func.attr == 'get' or (len(v.args) == 2 and isinstance(v.args[1], ast.Constant) and v.args[1].value is None)
+    if isinstance(v, ast.Name):
+        a = init.node.args
+        pos = a.posonlyargs + a.args
+        dflt = dict(zip([x.arg for x in pos][len(pos) - len(a.defaults):], a.defaults))
+        dflt.update((x.arg, d) for x, d in zip(a.kwonlyargs, a.kw_defaults) if d is not None)
+        d = dflt.get(v.id)
+        return isinstance(d, ast.Constant) and d.value is None and \
+            not any(isinstance(n, ast.Name) and n.id == v.id and isinstance(n.ctx, ast.Store) for n in walk_body(init.node))
+    return False
+
+
+def optional_fields(repo, ci):
+    """Fields of class ``ci`` that an instance can hold as None: every store to ``self.<f>`` in the class family's methods is
+    in a constructor and stores a maybe-None value (see _maybe_none): {field: (constructor, statement)}"""
+    stores = {}
+    for c in repo.mro(ci):
+        if not hasattr(c, 'methods') or c.mod.external:
+            continue
+        for m in c.methods.values():
+            for st in stmts_of(m.node):
+                tg = st.targets if isinstance(st, ast.Assign) else [st.target] if isinstance(st, (ast.AugAssign, ast.AnnAssign)) else []
+                for t in tg:
+                    for x in (t.elts if isinstance(t, (ast.Tuple, ast.List)) else [t]):
+                        if isinstance(x, ast.Attribute) and isinstance(x.value, ast.Name) and x.value.id == 'self':
+                            v = st.value if isinstance(st, ast.Assign) and x is t else None
+                            stores.setdefault(x.attr, []).append((m, st, v))
+    out = {}
+    for f, lst in stores.items():
+        if all(m.name == '__init__' and v is not None and _maybe_none(m, v) for m, st, v in lst):
+            out[f] = (lst[0][0], lst[0][1])
+    return out
+
+
+def check_optional_fields_guarded(rep, rule):
+    """An error's optional fields -- those its constructors fill from an optional keyword (``kwargs.pop('exc_info', None)``)
+    and nothing else assigns -- are None for an error that application code builds itself (``raise BadGateway()``).  In the
+    to_* serialisers of the HTTPException family (and the functions of the module they call) such a field is therefore
+    not dereferenced -- attribute / method / item access, membership, len() -- unless the access is guarded by a test of
+    the field, short-circuited by it, or under a handler: the renderer and its default_render_error fallback run the
+    same serialiser, so an AttributeError there reaches the WSGI server."""
+    from .c09 import _escape_scope
+    from .c15_nullable import _deref_kind, _short_circuited
+    from .common import implies_present
+    repo = rep.repo
+    err = repo.mod(ERR)
+    base = err.cls('HTTPException')
+    fam = [base] + repo.subclasses(base, [err])
+    seen, n_reads, n_fields = set(), 0, set()
+    for c in fam:
+        opt = optional_fields(repo, c)
+        if not opt:
+            continue
+        for name, m in sorted(c.methods.items()):
+            if not name.startswith('to_'):
+                continue
+            for fi in _escape_scope(repo, err, m):
+                if fi.cls is None or not any(fi.cls is k for k in repo.mro(c)):
+                    continue
+                # locals that hold exactly such a field's value (``info = self.exc_info``)
+                carriers = {}
+                for s_ in stmts_of(fi.node):
+                    if isinstance(s_, ast.Assign) and len(s_.targets) == 1 and isinstance(s_.targets[0], ast.Name):
+                        v_ = s_.value
+                        carriers.setdefault(s_.targets[0].id, []).append(
+                            v_.attr if isinstance(v_, ast.Attribute) and isinstance(v_.value, ast.Name) and v_.value.id == 'self' and v_.attr in opt else None)
+                carriers = dict((k, v[0]) for k, v in carriers.items() if len(v) == 1 and v[0] is not None and k not in fi.params())
+                for n in walk_body(fi.node):
+                    field = None
+                    if isinstance(n, ast.Attribute) and isinstance(n.value, ast.Name) and n.value.id == 'self' and n.attr in opt and \
+                            isinstance(n.ctx, ast.Load):
+                        field = n.attr
+                    elif isinstance(n, ast.Name) and n.id in carriers and isinstance(n.ctx, ast.Load):
+                        field = carriers[n.id]
+                    if field is None or (id(n), c.name) in seen:
+                        continue
+                    seen.add((id(n), c.name))
+                    kind = _deref_kind(fi.mod, n)
+                    if kind is None:
+                        continue
+                    n_reads += 1
+                    n_fields.add(field)
+                    text = norm(n)
+                    ok = implies_present(conds(fi, n), text) or _short_circuited(fi.mod, n, text) or \
+                        protected_by(fi, n, 'AttributeError') is not None
+                    init, st = opt[field]
+                    rep.check(rule, fkey(fi, '%s %s in %s' % (text, kind, c.name)), ok,
+                              '%s (%s) only where the optional field is known to be set' % (text, kind) if ok else
+                              '%s.%s uses %s as %s, but the field is None unless the error was built with it (%s: %s): for a %s that '
+                              'application code raises or returns itself the serialiser raises -- in render_error and again in its '
+                              'default_render_error fallback -- and the exception reaches the WSGI server'
+                              % (fi.cls.name, fi.name, text, kind, init.qualname, short(st, 60), c.name), fi.mod, n)
+    rep.ok(rule, '%s::optional fields of errors' % ERR, '%d dereference(s) of optional error fields (%s) in the to_* serialisers inspected'
+           % (n_reads, ', '.join(sorted(n_fields)) or 'none'))
 
 
 # ---------------------------------------------------------------------------------------------- R08.e: total JSON encoding
